@@ -280,6 +280,14 @@ def run_case(case):
                              f"{resd.name}/{nm}", {}))
         if optname in ("assign_only", "clean"):
             continue
+        # a protonated acid carries ONE proton; the second candidate
+        # position of the topology is a placeholder of the optimiser
+        for pair in (("HD1", "HD2"), ("HE1", "HE2")):
+            if resd.name in ("ASP", "ASH", "GLU", "GLH") and \
+                    pair[0] in names and pair[1] in names:
+                viol.append((f"C03/placeholder-proton-in-final-model/"
+                             f"{T.base_of(resd.name)}/{pair[0]}+{pair[1]}"
+                             f"/opt={optname}", {"residue": str(resd)}))
         inf = by_seq.get(resd.res_seq)
         if inf is None:
             continue
